@@ -66,7 +66,7 @@ Theorem C13_failed_write_releases : forall max ttl mr ops t name sz w,
   let s' := fst (step true s (WtEnd t w)) in
   lookupP t (s_pend (sy s')) = None
   /\ reserved (sy s') + sz = reserved (sy s)
-  /\ (if Proof.C13.wt_succeeds (sy s) name sz w
+  /\ (if wt_succeeds (sy s) name sz w
       then c_ents (s_c (sy s')) = c_ents (s_c (sy s)) ++ [mkE name sz (clk s)] /\ total (sy s') = total (sy s)
       else c_ents (s_c (sy s')) = c_ents (s_c (sy s)) /\ total (sy s') + sz = total (sy s)).
 Proof. exact Proof.C13.failed_write_releases. Qed.
@@ -148,7 +148,7 @@ Print Assumptions C13_lru_no_expired.
 Theorem C13_lru_last_touch_spec : forall hist k t j,
   last_touch hist k = Some (t, j) ->
   nth_error hist (N.to_nat j) = Some (LAdd k t)
-  /\ forall j' o, (N.to_nat j < j')%nat -> nth_error hist j' = Some o -> ~ Proof.C13_lru.undoes k o.
+  /\ forall j' o, (N.to_nat j < j')%nat -> nth_error hist j' = Some o -> undoes k o = false.
 Proof. exact Proof.C13_lru.last_touch_spec. Qed.
 Print Assumptions C13_lru_last_touch_spec.
 
